@@ -1,8 +1,8 @@
 \* non-vacuity template: checks/C03.py and C15.py substitute Dev and the single invariant that must fail
 SPECIFICATION Spec
 CONSTANTS
-  Kinds = {"redirect", "cache", "ecs", "up"}
-  MaxLen = 2
+  Kinds = {"redirect", "cache", "ecs", "up", "local"}
+  MaxLen = 3
   Mals = {"ok", "twoq"}
   CSizes = {512}
   COptSets <- COptsSome
